@@ -279,17 +279,22 @@ theorem uniq_congr_key (f : ThState × Int × Int × Nat → Int) {l l' : List T
     uniq l (fun t => f t.key) = uniq l' (fun t => f t.key) := by
   rw [uniq_key, uniq_key, h]
 
-theorem withVals_congr (c : Cpu) {b b' : List Thread} (h : b.map Thread.key = b'.map Thread.key) :
-    c.withVals b = c.withVals b' := by
+/-- the five values of `cpu_update` depend on the bound threads only through their keys -/
+theorem vals_congr_key {b b' : List Thread} (h : b.map Thread.key = b'.map Thread.key) :
+    (runOf b).length = (runOf b').length ∧
+    uniq (runOf b) (·.pid) = uniq (runOf b') (·.pid) ∧
+    uniq (runOf b) (·.tid) = uniq (runOf b') (·.tid) ∧
+    uniq (runOf b) (fun t => (t.gindex : Int)) = uniq (runOf b') (fun t => (t.gindex : Int)) ∧
+    uniq (actOf b) (fun t => (t.gindex : Int)) = uniq (actOf b') (fun t => (t.gindex : Int)) := by
   have hr : (runOf b).map Thread.key = (runOf b').map Thread.key := by rw [runOf_key, runOf_key, h]
   have ha : (actOf b).map Thread.key = (actOf b').map Thread.key := by rw [actOf_key, actOf_key, h]
-  have e1 : uniq (runOf b) (·.tid) = uniq (runOf b') (·.tid) := uniq_congr_key (fun k => k.2.1) hr
-  have e2 : uniq (runOf b) (·.pid) = uniq (runOf b') (·.pid) := uniq_congr_key (fun k => k.2.2.1) hr
-  have e3 : uniq (runOf b) (fun t => (t.gindex : Int)) = uniq (runOf b') (fun t => (t.gindex : Int)) :=
-    uniq_congr_key (fun k => (k.2.2.2 : Int)) hr
-  have e4 : (runOf b).length = (runOf b').length := by rw [runOf_length_key, runOf_length_key, h]
-  have e5 : uniq (actOf b) (fun t => (t.gindex : Int)) = uniq (actOf b') (fun t => (t.gindex : Int)) :=
-    uniq_congr_key (fun k => (k.2.2.2 : Int)) ha
+  refine ⟨?_, uniq_congr_key (fun k => k.2.2.1) hr, uniq_congr_key (fun k => k.2.1) hr,
+    uniq_congr_key (fun k => (k.2.2.2 : Int)) hr, uniq_congr_key (fun k => (k.2.2.2 : Int)) ha⟩
+  rw [runOf_length_key, runOf_length_key, h]
+
+theorem withVals_congr (c : Cpu) {b b' : List Thread} (h : b.map Thread.key = b'.map Thread.key) :
+    c.withVals b = c.withVals b' := by
+  obtain ⟨e1, e2, e3, e4, e5⟩ := vals_congr_key h
   unfold Cpu.withVals
   rw [e1, e2, e3, e4, e5]
 
